@@ -60,7 +60,9 @@ func init() {
 		if cond != 1 || get != 1 || exp != 1 {
 			return false
 		}
-		return strings.Contains(m.Why, "Incorrect or wrong number of arguments") && !strings.Contains(m.Why, "model (err")
+		// (on a key of another type the model answers WRONGTYPE where the emulator has already rejected the arguments)
+		return strings.Contains(m.Why, "Incorrect or wrong number of arguments") &&
+			(!strings.Contains(m.Why, "model (err") || strings.Contains(m.Why, "model (err 57524f4e4754595045"))
 	}
 	// SET/GETEX ... EXAT T: the stored deadline carries the nanoseconds of the current time
 	signatures["exat-deadline-nanoseconds"] = func(m *Mismatch, args [][]byte) bool {
@@ -84,6 +86,33 @@ func init() {
 			}
 		}
 		return usedExat && strings.Contains(m.Why, "clock-dependent integer off by")
+	}
+	// LCS with an option keyword given twice (LEN LEN, IDX IDX, WITHMATCHLEN WITHMATCHLEN): redis takes
+	// the options in a loop and accepts repetitions, the argument parser rejects them.
+	signatures["lcs-repeated-option"] = func(m *Mismatch, args [][]byte) bool {
+		if len(args) < 5 || strings.ToLower(string(args[0])) != "lcs" {
+			return false
+		}
+		seen := map[string]int{}
+		for i := 3; i < len(args); i++ {
+			kw := strings.ToUpper(string(args[i]))
+			switch kw {
+			case "LEN", "IDX", "WITHMATCHLEN":
+				seen[kw]++
+			case "MINMATCHLEN":
+				seen[kw]++
+				i++
+			default:
+				return false
+			}
+		}
+		rep := false
+		for _, n := range seen {
+			if n > 1 {
+				rep = true
+			}
+		}
+		return rep && strings.Contains(m.Why, "Incorrect or wrong number of arguments") && !strings.Contains(m.Why, "model (err 455252")
 	}
 	// BITFIELD_RO with more than one GET is rejected by the argument parser.
 	signatures["bitfield-ro-multi-get"] = func(m *Mismatch, args [][]byte) bool {
